@@ -2,6 +2,8 @@
 // Usage: nwv <driver> <cases.json> <out.json>
 mod codec_drv;
 mod framing_drv;
+mod server_drv;
+mod unicode_drv;
 mod gen_schema;
 
 use std::io::Write;
@@ -19,6 +21,8 @@ fn main() {
   let out = match args[1].as_str() {
     "codec" => codec_drv::run(&cases),
     "framing" => framing_drv::run(&cases),
+    "unicode" => unicode_drv::run(&cases),
+    "server" => server_drv::run(&cases),
     other => {
       eprintln!("unknown driver {other}");
       std::process::exit(2);
